@@ -18,7 +18,7 @@ LEVEL = 'exploration'
 TECHNIQUE = ('stateful / history-based: Hypothesis-generated operation sequences over the public edit API (handles into '
              'nested sub-edits, bursts of refinement without reads) and bounded-exhaustive interleavings on fixed pairs, '
              'x quiet/colour printer settings, compared with a reference run under the canonical driver')
-RULE = ("[also: every has_non_zero_cost() answer given during a history is compared with the edit's final cost; a family of lists of records with long keys exercises cost ties in the last alignment cell; a high-volume 'light' job (record lists and lists of variants of one or two base records) compares only three drivers: refine to the end, list sub-edits first then refine, TreeNode.diff] A case is (pair, options, printer config {quiet, colour}, history). The history is a list of operations "
+RULE = ("[also: every has_non_zero_cost() answer given during a history is compared with the edit's final cost; a multiset family (lists read as multisets, with duplicates); sub-edit listings repeated within a history must name the same edits; a family of lists of records with long keys exercises cost ties in the last alignment cell; a high-volume 'light' job (record lists and lists of variants of one or two base records) compares only three drivers: refine to the end, list sub-edits first then refine, TreeNode.diff] A case is (pair, options, printer config {quiet, colour}, history). The history is a list of operations "
         "[bounds | tighten xk with no read in between | is_complete | valid | has_non_zero_cost | edits (sub-edits join "
         "the handle pool, so nested edits are driven directly and out of order) | edits twice], each applied to a handle "
         "drawn from the pool (initially the root edit). Generated: up to 30 (quick) / 80 (thorough) operations with rule "
@@ -83,9 +83,13 @@ def histories(draw, max_ops):
 def cases(draw, kind, max_ops, max_leaves):
     base = draw(gen.json_cases(max_leaves, 4) if kind == 'json' else
                 (gen.skewed_cases(6) if kind == 'skewed' else
-                 (gen.padded_cases() if kind == 'padded' else (gen.record_cases() if kind == 'records' else gen.nested_list_cases()))))
-    return {'a': base['a'], 'b': base['b'], 'ds': base['ds'], 'le': base['le'], 'quiet': draw(st.booleans()),
+                 (gen.padded_cases() if kind == 'padded' else (gen.record_cases() if kind == 'records' else
+                                                               (gen.multiset_cases(8) if kind == 'multiset' else gen.nested_list_cases())))))
+    case = {'a': base['a'], 'b': base['b'], 'ds': base['ds'], 'le': base['le'], 'quiet': draw(st.booleans()),
             'color': draw(st.booleans()), 'history': draw(histories(max_ops))}
+    if base.get('family', 'json') != 'json':
+        case['family'] = base['family']
+    return case
 
 
 def jobs(tier):
@@ -100,6 +104,7 @@ def jobs(tier):
         js.append({'kind': 'skewed', 'n': max(8, n_nested // 10), 'max_ops': 10, 'max_leaves': 0, 'shard': s})
         js.append({'kind': 'padded', 'n': max(60, n_nested // 3), 'max_ops': 10, 'max_leaves': 0, 'shard': s})
         js.append({'kind': 'records', 'n': 40 if tier == 'quick' else 1500, 'max_ops': 6, 'max_leaves': 0, 'shard': s})
+        js.append({'kind': 'multiset', 'n': 60 if tier == 'quick' else 1500, 'max_ops': 12, 'max_leaves': 0, 'shard': s})
         js.append({'kind': 'exhaustive', 'maxlen': exl, 'shard': s})
         js.append({'kind': 'light', 'n': 250 if tier == 'quick' else 12000, 'shard': s})
     return js
@@ -126,7 +131,7 @@ def run_job(job, seed, sink):
 
 
 def reference(case):
-    fam = {'family': 'json', **{k: case[k] for k in ('a', 'b', 'ds', 'le')}}
+    fam = {'family': case.get('family', 'json'), **{k: case[k] for k in ('a', 'b', 'ds', 'le')}}
     a, b = gen.build(fam, 'a'), gen.build(fam, 'b')
     e = a.edits(b)
     common.full_tighten(e)
@@ -179,7 +184,7 @@ def check(case):
     if case.get('light'):
         return check_light(case)
     out = Outcome()
-    fam = {'family': 'json', **{k: case[k] for k in ('a', 'b', 'ds', 'le')}}
+    fam = {'family': case.get('family', 'json'), **{k: case[k] for k in ('a', 'b', 'ds', 'le')}}
     history = case.get('history', [])
     quiet, color = bool(case.get('quiet')), bool(case.get('color'))
     pr = common._import_time_printer
@@ -222,8 +227,11 @@ def check(case):
                         subs = list(x.edits())
                         if op == 'edits2':
                             subs2 = list(x.edits())
-                            if len(subs2) != len(subs):
-                                out.fail('edits-not-repeatable', f"{type(x).__name__}.edits() listed {len(subs)} then {len(subs2)} sub-edits")
+                            def brief(es):
+                                return sorted((type(q).__name__, repr(plain(q.from_node))) for q in es)
+                            if len(subs2) != len(subs) or brief(subs2) != brief(subs):
+                                out.fail('edits-not-repeatable', f"{type(x).__name__}.edits() listed {len(subs)} then {len(subs2)} sub-edits "
+                                                                 f"(or different ones): {brief(subs)[:6]} then {brief(subs2)[:6]}")
                         for s in subs:
                             if len(pool) < 64 and not any(s is p for p in pool):
                                 pool.append(s)
@@ -270,7 +278,7 @@ def check(case):
         pr.quiet, pr.ansi_color = old_quiet, old_color
     nested = has_nested_sequence(ref_rec)
     out.nontrivial = nested and (burst or early_edits)
-    out.label('quiet' if quiet else 'non-quiet', 'colour' if color else 'no-colour')
+    out.label('quiet' if quiet else 'non-quiet', 'colour' if color else 'no-colour', 'family:' + case.get('family', 'json'))
     if burst:
         out.label('burst')
     if early_edits:
